@@ -16,7 +16,7 @@ class C08Spec(explore.Spec):
             for nc in NODE_CFGS:
                 out.append({"version": v, "cb": None, "nodecfg": nc})
         # the periodic save runs between withholding and wake-up: saving must not disturb the live smart-sleep state
-        out += [{"version": "2.2", "cb": None, "nodecfg": "equal", "persistence": fmt, "depth": 3} for fmt in ("pickle", "json")]
+        out += [{"version": "2.2", "cb": None, "nodecfg": "equal", "persistence": fmt, "depth": 4} for fmt in ("pickle", "json")]
         return out
 
     def make_world(self, cfg):
@@ -25,6 +25,9 @@ class C08Spec(explore.Spec):
 
     def alphabet(self, cfg):
         v = cfg["version"]
+        if cfg.get("persistence"):
+            # two nodes, saves and a stop + fresh start at any position (nodes restored from the file)
+            return alpha.events(v, ["WA", "WB", "CFG", "CFGB", "RA0", "SA0"]) + [("set", 1, 0, 2, "0"), ("set", 2, 0, 2, "0"), ("tick",), ("restart",)]
         evs = []
         extra = [
             ("set", 1, 0, 2, "0"),
@@ -39,8 +42,6 @@ class C08Spec(explore.Spec):
             ("set", 1, 0, 2, "bad"),
             ("fw", 1, 1, 1, "F1"),
         ]
-        if cfg.get("persistence"):
-            extra.append(("tick",))
         for ev in alpha.events(v, NAMES) + extra:
             if ev not in evs:
                 evs.append(ev)
@@ -48,6 +49,8 @@ class C08Spec(explore.Spec):
 
     def roots(self, cfg):
         t = alpha.lines(cfg["version"])
+        if cfg.get("persistence"):
+            return [tuple(alpha.rx(t[n]) for n in ("PA", "CA0", "SA0", "PB", "CB0", "SB0"))]
         first = alpha.rx(t[NODE_CFGS[cfg["nodecfg"]]])
         return [
             (first,),
